@@ -24,14 +24,15 @@ type pdfXrefEntry struct {
 }
 
 type pdfRevision struct {
-	plain     []pdfObj            // written as n 0 obj ... endobj
-	packed    map[int][]pdfObj    // object stream number -> members (bodies are plain objects)
-	deleted   []int               // object numbers freed in this revision
-	xrefStm   bool                // cross-reference stream instead of table
-	xrefNum   int                 // object number of the cross-reference stream
-	flate     bool                // compress the cross-reference / object streams
-	extra     string              // extra trailer entries
-	widths    [3]int              // /W of a cross-reference stream
+	plain   []pdfObj         // written as n 0 obj ... endobj
+	packed  map[int][]pdfObj // object stream number -> members (bodies are plain objects)
+	deleted []int            // object numbers freed in this revision
+	xrefStm bool             // cross-reference stream instead of table
+	hybrid  bool             // table + /XRefStm naming a cross-reference stream for the packed objects
+	xrefNum int              // object number of the cross-reference stream
+	flate   bool             // compress the cross-reference / object streams
+	extra   string           // extra trailer entries
+	widths  [3]int           // /W of a cross-reference stream
 }
 
 // pdfEOL: the end-of-line marker written between the structural parts of the file
@@ -40,6 +41,12 @@ var pdfEOL = "\n"
 
 // pdfHeader: the first line of the file
 var pdfHeader = "%PDF-1.7"
+
+// pdfTight: no white space where delimiters make it unnecessary ("5 0 obj<<...>>endobj", "trailer<<...>>")
+var pdfTight = false
+
+// pdfComments: comment lines between the objects
+var pdfComments = false
 
 func pdfStreamEOL() string {
 	if pdfEOL == "\r" {
@@ -80,7 +87,18 @@ func pdfWrite(revs []pdfRevision) pdfWritten {
 		}
 		emit := func(num int, body string) {
 			off := int64(out.Len())
-			fmt.Fprintf(&out, "%d 0 obj%s%s%sendobj%s", num, nl, body, nl, nl)
+			pre, post := nl, nl
+			if pdfTight && len(body) > 1 && (body[0] == '<' || body[0] == '[') {
+				pre = ""
+				if c := body[len(body)-1]; c == '>' || c == ']' {
+					post = ""
+				}
+			}
+			if pdfComments && num%3 == 0 {
+				fmt.Fprintf(&out, "%% a comment line with obj 1 0 R endobj xref in it%s", nl)
+				off = int64(out.Len())
+			}
+			fmt.Fprintf(&out, "%d 0 obj%s%s%sendobj%s", num, pre, body, post, nl)
 			entries = append(entries, pdfXrefEntry{num, 1, off, 0})
 			w.offsets[off] = num
 			if num >= size {
@@ -116,14 +134,9 @@ func pdfWrite(revs []pdfRevision) pdfWritten {
 				size = d + 1
 			}
 		}
-		xrefOff := int64(out.Len())
-		if rev.xrefStm {
-			if rev.xrefNum >= size {
-				size = rev.xrefNum + 1
-			}
-			entries = append(entries, pdfXrefEntry{rev.xrefNum, 1, xrefOff, 0})
-			w.offsets[xrefOff] = rev.xrefNum
-			sort.SliceStable(entries, func(i, j int) bool { return entries[i].num < entries[j].num })
+		// xstream: a cross-reference stream object over the given entries, written here
+		xstream := func(num int, ents []pdfXrefEntry, withPrev bool) {
+			sort.SliceStable(ents, func(i, j int) bool { return ents[i].num < ents[j].num })
 			var idx []string
 			var data bytes.Buffer
 			wd := rev.widths
@@ -135,14 +148,14 @@ func pdfWrite(revs []pdfRevision) pdfWritten {
 					data.WriteByte(byte(v >> (8 * uint(k))))
 				}
 			}
-			for i := 0; i < len(entries); {
+			for i := 0; i < len(ents); {
 				j := i
-				for j+1 < len(entries) && entries[j+1].num == entries[j].num+1 {
+				for j+1 < len(ents) && ents[j+1].num == ents[j].num+1 {
 					j++
 				}
-				idx = append(idx, fmt.Sprintf("%d %d", entries[i].num, j-i+1))
+				idx = append(idx, fmt.Sprintf("%d %d", ents[i].num, j-i+1))
 				for k := i; k <= j; k++ {
-					e := entries[k]
+					e := ents[k]
 					put(int64(e.kind), wd[0])
 					put(e.a, wd[1])
 					put(int64(e.b), wd[2])
@@ -150,10 +163,40 @@ func pdfWrite(revs []pdfRevision) pdfWritten {
 				i = j + 1
 			}
 			dict := fmt.Sprintf("/Type /XRef /Size %d /W [%d %d %d] /Index [%s]%s", size, wd[0], wd[1], wd[2], strings.Join(idx, " "), rev.extra)
-			if prev >= 0 {
+			if withPrev && prev >= 0 {
 				dict += fmt.Sprintf(" /Prev %d", prev)
 			}
-			fmt.Fprintf(&out, "%d 0 obj%s%s%sendobj%s", rev.xrefNum, nl, pdfStream(dict, data.Bytes(), rev.flate), nl, nl)
+			fmt.Fprintf(&out, "%d 0 obj%s%s%sendobj%s", num, nl, pdfStream(dict, data.Bytes(), rev.flate), nl, nl)
+		}
+		hybridOff := int64(-1)
+		if rev.hybrid && !rev.xrefStm {
+			// hybrid-reference file: the packed objects are listed in a cross-reference stream that the
+			// trailer of the classic table names with /XRefStm; the table lists everything else
+			if rev.xrefNum >= size {
+				size = rev.xrefNum + 1
+			}
+			var hidden, shown []pdfXrefEntry
+			for _, e := range entries {
+				if e.kind == 2 {
+					hidden = append(hidden, e)
+				} else {
+					shown = append(shown, e)
+				}
+			}
+			hybridOff = int64(out.Len())
+			w.offsets[hybridOff] = rev.xrefNum
+			shown = append(shown, pdfXrefEntry{rev.xrefNum, 1, hybridOff, 0})
+			xstream(rev.xrefNum, hidden, false)
+			entries = shown
+		}
+		xrefOff := int64(out.Len())
+		if rev.xrefStm {
+			if rev.xrefNum >= size {
+				size = rev.xrefNum + 1
+			}
+			entries = append(entries, pdfXrefEntry{rev.xrefNum, 1, xrefOff, 0})
+			w.offsets[xrefOff] = rev.xrefNum
+			xstream(rev.xrefNum, entries, true)
 		} else {
 			sort.SliceStable(entries, func(i, j int) bool { return entries[i].num < entries[j].num })
 			out.WriteString("xref" + nl)
@@ -180,10 +223,17 @@ func pdfWrite(revs []pdfRevision) pdfWritten {
 				i = j + 1
 			}
 			tr := fmt.Sprintf("/Size %d%s", size, rev.extra)
+			if hybridOff >= 0 {
+				tr += fmt.Sprintf(" /XRefStm %d", hybridOff)
+			}
 			if prev >= 0 {
 				tr += fmt.Sprintf(" /Prev %d", prev)
 			}
-			fmt.Fprintf(&out, "trailer%s<< %s >>%s", nl, tr, nl)
+			if pdfTight {
+				fmt.Fprintf(&out, "trailer<<%s>>%s", tr, nl)
+			} else {
+				fmt.Fprintf(&out, "trailer%s<< %s >>%s", nl, tr, nl)
+			}
 		}
 		fmt.Fprintf(&out, "startxref%s%d%s%%%%EOF%s", nl, xrefOff, nl, nl)
 		prev = xrefOff
